@@ -20,7 +20,7 @@ EXPLANATION = (
     "shared_get_mut or single_write."
 )
 NOT_DECIDED = ("event order inside shrev's channel and reader bookkeeping; that callers dereference the deferred access exactly when they "
-               "mutate; bulk clear() emits nothing by design")
+               "mutate; bulk clear() emits nothing by design R4: an overriding UnprotectedStorage::drop of a tracked storage is a row of the event table (exactly one Removed(id), own channel, under the emission switch, before the inner storage is touched).")
 TRUSTED = ["rustc nightly MIR", "shrev::EventChannel::single_write appends exactly one event", "sa/ analyses"]
 LEVEL_TEXT = ("Every path of each tracked storage method is checked against the event table (right variant, right id, before delegating, "
               "under the emission switch, nothing on read paths), in the configurations with and without storage-event-control. What a "
